@@ -33,6 +33,7 @@ type VerifValue struct {
 type VerifBlock struct {
 	Preds, Succs []int
 	Phis         []int // value ids of the block's phi instructions, in order
+	Defs         []int // value ids of the other instructions of the block that are values (among the rendered ones)
 	// the comparison the block ends with, if it ends with an If on a BinOp
 	HasIf      bool
 	Op         string // "==", "!=", or another operator
@@ -176,6 +177,18 @@ func verifDump(pkg string, fn *ssa.Function) (res VerifFunc) {
 			}
 		}
 		res.Blocks = append(res.Blocks, vb)
+	}
+	for i, b := range fn.Blocks {
+		for _, instr := range b.Instrs {
+			if _, isPhi := instr.(*ssa.Phi); isPhi {
+				continue
+			}
+			if v, ok := instr.(ssa.Value); ok {
+				if id, ok := ids[v]; ok {
+					res.Blocks[i].Defs = append(res.Blocks[i].Defs, id)
+				}
+			}
+		}
 	}
 	func() {
 		defer func() {
